@@ -37,16 +37,9 @@ def check_arith(run, rule):
         assume = {}
         notes = []
         if f["qn"].endswith("get_time_offset"):
-            # int64_t x = <unsigned tick count>: in [0, 2^63) by the property's stated precondition
-            for n_ in ir.walk(f["body"]):
-                if n_.get("k") == "Decl":
-                    for v in n_.get("vars", []):
-                        if v.get("t") == "long" and v.get("init") is not None:
-                            u = unwrap(v["init"])
-                            ini = v["init"]
-                            if isinstance(ini, dict) and ini.get("k") == "Cast" and ini.get("from") == "unsigned long":
-                                assume["l:%s#%s" % (v["n"], v["id"])] = (0, INT64_MAX)
-                                notes.append(v["n"])
+            # an unsigned tick total converted to int64_t is in [0, 2^63) by the property's stated range
+            assume["cast:unsigned long->long"] = (0, INT64_MAX)
+            notes.append("tick totals")
         seen = {}
         for node, ok, txt in ranges.check_function(f, facts.enums, assume):
             n += 1
@@ -64,11 +57,25 @@ def check_arith(run, rule):
                 for x in ir.walk(st):
                     if x.get("k") == "Bin" and x.get("op") in ("/", "%", "/=", "%="):
                         divs.append((x, g))
-            first = ir.stmts(f["body"])[0] if ir.stmts(f["body"]) else None
-            ok = first is not None and first.get("k") == "If" and ir.leaves_function(first.get("then")) and \
-                cond(first["cond"], env) == ("not", ("nz", "p:%s" % f["params"][1]["n"]))
+            rate = "p:%s" % f["params"][1]["n"]
+            refuse = ("not", ("nz", rate))
+            refused = False
+            late = []
+            for st, g, loops in ir.guarded_statements(f["body"], env):
+                if st.get("k") in ("IfCond", "LoopHead", "SwitchHead", "Decl"):
+                    continue
+                atoms = ir.conjuncts(g)
+                if unwrap(st).get("k") == "Throw" and refuse in atoms:
+                    refused = True
+                    continue
+                # everything else (member updates, the returned difference) happens with a non-zero rate only
+                if ("nz", rate) not in atoms:
+                    late.append(st.get("l", 0))
+            ok = refused and not late
             run.ob(rule, "%s:rate-0-refused-first" % short(f["qn"]), ok, f, f["line"],
-                   "tick rate 0 is refused before anything else" if ok else "the first statement must refuse ticks_per_second == 0 by throw")
+                   "tick rate 0 is refused by a throw and nothing else runs with rate 0" if ok else
+                   ("no throw under ticks_per_second == 0" if not refused else
+                    "statements at line(s) %s run before/without the ticks_per_second == 0 refusal" % sorted(set(late))))
     run.floor(rule, 5, "arithmetic obligations in timestamp.cpp")
 
 
